@@ -98,12 +98,18 @@ CHECKS = {
             "pkg": BS, "funcs": ["VerifC11Abort"],
             "params": {"quick": {"N": 3}, "thorough": {"N": 4}},
             "covers": {"VerifC11Abort": ["aborted", "control", "retried", "partial-ancestry"]},
+        }, {
+            "pkg": BS, "funcs": ["VerifC11CancelAnywhere"],
+            "params": {"quick": {"N": 2}, "thorough": {"N": 3}},
+            "max_paths": {"quick": 60000, "thorough": 400000},
+            "covers": {"VerifC11CancelAnywhere": ["aborted", "retried"]},
         }],
         "assumptions": [
             "remote log = chain of N entries or two branches; replication concurrency 1 or 2; request 1 is cancelled before it starts, at the k-th block fetch (k=1..N, i.e. while another worker waits for a slot or in the middle of a fetch) or after the last, and/or one chosen fetch fails; request 2 for the same heads runs with a live context and all blocks available",
             "quiescence decided from the scheduler state",
+            "cancel-anywhere harness: the first request's context is cancelled at ANY visible operation of ANY thread (each lock/unlock, channel operation, goroutine start, block/cache effect is a point where the path may fire the cancellation): one path per point",
         ],
-        "outside": ["timeouts of the real bitswap", "cancellation points between visible operations other than block fetches", "N beyond the bound"],
+        "outside": ["timeouts of the real bitswap", "cancellation between two visible operations of the same thread", "N beyond the bound"],
     },
     "C09": {
         "groups": [{
